@@ -103,4 +103,12 @@ example :
                   .rds [1, 3], .deliver, .commit 2, .deliver, .deliver]
     s.reusedSpent = false ∧ quiescent s = true ∧ s.pushedSC = [3, 1] := by decide
 
+/-- a cluster named by several route entries is referenced ONCE by the config selector (the theorems
+    above are about `rds` lists with repetitions as well): it is dropped after the routes leave it … -/
+example : (run [.rds [1, 1], .deliver, .rds [2], .deliver, .deliver]).pushedSC = [2] := by decide
+/-- … and kept while an RPC routed to it is uncommitted -/
+example :
+    let s := run [.rds [1, 1], .deliver, .select 1 1, .rds [2], .deliver]
+    s.pushedSC = [1, 2] ∧ s.active.map (fun i => (i.name, i.refCount)) = [(1, 1), (2, 1)] := by decide
+
 end GrpcProofs.C51
